@@ -80,4 +80,11 @@ theorem loc_newline_style_independent (s : Bytes) (h : 13 ∉ s) :
 example : splitLines (toCRLFb [120, 10, 35, 10, 10, 121]) = [[120], [35], [], [121]] ∧ countLocs (splitLines (toCRLFb [120, 10, 35, 10, 10, 121])) = 2 := by
   decide
 
+/-- **the lines `loc` is counted over are the parser's lines**: `bytes.splitlines()` gives the same lines whether or not `\\r\\n` / `\\r` were first rewritten to
+`\\n` — the normalisation under which comments are numbered (`/repo` 1cb0176) and the AST is built does not change the line list of the metrics -/
+theorem loc_lines_are_parser_lines (s : Bytes) : countLocs (splitLines (normNl s)) = countLocs (splitLines s) := by
+  rw [splitLines_normNl]
+
+example : normNl [120, 13, 10, 121, 13, 122, 10] = [120, 10, 121, 10, 122, 10] := by decide
+
 end Props.C12
